@@ -244,6 +244,42 @@ pub fn c06(n: u64, seed: u64) {
     for x in &t {
         x.print();
     }
+    // angles of many turns, exact (signed) multiples of a quarter turn and a hair next to them, f64 and f32, against std's
+    // sin / cos of the same floating-point angle
+    let tl = Tally::new("c06.special_and_large_angles");
+    let q = PI / 2.0;
+    for &th in [1000.0f64, -777.0, 1.0e6, 1.0e9, 12345.678, q, -q, 2.0 * q, -2.0 * q, -3.0 * q, 3.0 * q, -4.0 * q, -6.0 * q, -7.0 * q, 4.0e-7, -9.0e-7, q + 1.2e-6, -2.0 * q - 3.0e-7].iter() {
+        let (sn, cs) = (th.sin(), th.cos());
+        let m2 = Matrix2::from_angle(Rad(th));
+        let mz = M3::from_angle_z(Rad(th));
+        let mx4 = M4::from_angle_x(Rad(th));
+        let qz: Q = Rotation3::from_angle_z(Rad(th));
+        let b2: Basis2<f64> = Rotation2::from_angle(Rad(th));
+        let tol = 1e-13;
+        let ok = (m2.x.x - cs).abs() <= tol && (m2.x.y - sn).abs() <= tol && (m2.y.x + sn).abs() <= tol && (m2.y.y - cs).abs() <= tol
+            && (mz.x.x - cs).abs() <= tol && (mz.x.y - sn).abs() <= tol && (mz.y.x + sn).abs() <= tol && (mz.z.z - 1.0).abs() <= tol
+            && (mx4.y.y - cs).abs() <= tol && (mx4.y.z - sn).abs() <= tol && (mx4.z.y + sn).abs() <= tol
+            && (qz.s - (th / 2.0).cos()).abs() <= tol && (qz.v.z - (th / 2.0).sin()).abs() <= tol
+            && v2close(b2.rotate_vector(V2::unit_x()), V2::new(cs, sn));
+        tl.rec(ok, || format!("from_angle(Rad({:e})) f64: Matrix2 {:?}, Matrix3 z {:?}, quaternion {:?}; std sin = {:e}, cos = {:e}", th, m2, mz, qz, sn, cs));
+        let t32 = th as f32;
+        if t32.abs() <= 2000.0 {
+            let (s32, c32) = ((t32 as f64).sin(), (t32 as f64).cos());
+            let n2 = Matrix2::<f32>::from_angle(Rad(t32));
+            let n3 = Matrix3::<f32>::from_angle_y(Rad(t32));
+            let tol32 = 2.0e-7 * (1.0 + t32.abs() as f64 * 1.0e-7);
+            let ok32 = (n2.x.x as f64 - c32).abs() <= tol32 && (n2.x.y as f64 - s32).abs() <= tol32 && (n3.x.x as f64 - c32).abs() <= tol32 && (n3.z.x as f64 - s32).abs() <= tol32;
+            tl.rec(ok32, || format!("from_angle(Rad({:e})) f32: Matrix2 {:?}, Matrix3 y {:?}; sin = {:e}, cos = {:e}", t32, n2, n3, s32, c32));
+        }
+    }
+    for &d in [-180.0f64, -270.0, 180.0, 90.0, -90.0, -540.0, 360.0, 270.0, -630.0].iter() {
+        let (sn, cs) = (d.to_radians().sin(), d.to_radians().cos());
+        let m2 = Matrix2::from_angle(Deg(d));
+        let mx = M3::from_angle_x(Deg(d));
+        let ok = (m2.x.x - cs).abs() <= 1e-13 && (m2.x.y - sn).abs() <= 1e-13 && (mx.y.y - cs).abs() <= 1e-13 && (mx.y.z - sn).abs() <= 1e-13;
+        tl.rec(ok, || format!("from_angle(Deg({})): Matrix2 {:?}, Matrix3 x {:?}; sin = {:e}, cos = {:e}", d, m2, mx, sn, cs));
+    }
+    tl.print();
 }
 
 // ------------------------------------------------------------------------------------ C07
@@ -286,6 +322,43 @@ pub fn c07(n: u64, seed: u64) {
         x.print();
     }
     println!("info c07.gimbal_worst_element_error={:e}", worst);
+    // against an explicit reference (sin / cos of the f64 angle from std, not through cgmath): whole and half quarter turns of
+    // either sign, many turns, and angles a hair away from a multiple of a quarter turn
+    let ts = Tally::new("c07.euler_special_angles_explicit_reference");
+    let refm = |x: f64, y: f64, z: f64| -> M3 {
+        let (sx, cx, sy, cy, sz, cz) = (x.sin(), x.cos(), y.sin(), y.cos(), z.sin(), z.cos());
+        let rx = M3::new(1.0, 0.0, 0.0, 0.0, cx, sx, 0.0, -sx, cx);
+        let ry = M3::new(cy, 0.0, -sy, 0.0, 1.0, 0.0, sy, 0.0, cy);
+        let rz = M3::new(cz, sz, 0.0, -sz, cz, 0.0, 0.0, 0.0, 1.0);
+        rx * ry * rz
+    };
+    let q = PI / 2.0;
+    let specials: [f64; 19] = [0.0, q, -q, 2.0 * q, -2.0 * q, 3.0 * q, -3.0 * q, 4.0 * q, -4.0 * q, -6.0 * q, -7.0 * q, 1000.0, -777.0, 1.0e6,
+        4.0e-7, -9.0e-7, q + 1.2e-6, -2.0 * q - 3.0e-7, 0.8];
+    for (i, &x) in specials.iter().enumerate() {
+        for (j, &y) in specials.iter().enumerate() {
+            let z = specials[(i * 7 + j * 3 + 1) % specials.len()];
+            let want = refm(x, y, z);
+            let e = Euler { x: Rad(x), y: Rad(y), z: Rad(z) };
+            let tol = 1e-12 * (1.0 + x.abs().max(y.abs()).max(z.abs()) * 1e-3);
+            let dm = m3maxdiff(M3::from(e), want).max(m3maxdiff(upper3(M4::from(e)), want)).max(m3maxdiff(M3::from(Basis3::from(e)), want));
+            let dq = m3maxdiff(M3::from(Q::from(e)), want);
+            ts.rec(dm <= tol && dq <= tol * 4.0, || format!("Euler<Rad<f64>>({:e}, {:e}, {:e}): max|Matrix - reference| = {:e}, max|Matrix3::from(Quaternion) - reference| = {:e}", x, y, z, dm, dq));
+            if x.abs() <= 10.0 && y.abs() <= 10.0 && z.abs() <= 10.0 {
+                let ed = Euler { x: Deg(x.to_degrees()), y: Deg(y.to_degrees()), z: Deg(z.to_degrees()) };
+                let dd = m3maxdiff(M3::from(ed), want).max(m3maxdiff(M3::from(Q::from(ed)), want));
+                ts.rec(dd <= 1e-12, || format!("Euler<Deg<f64>>({:e}, {:e}, {:e}) deg: max|Matrix - reference| = {:e}", x.to_degrees(), y.to_degrees(), z.to_degrees(), dd));
+            }
+        }
+    }
+    // exact degree values
+    for &d in [-180.0f64, -270.0, 180.0, 90.0, -90.0, -540.0, 360.0].iter() {
+        let e = Euler { x: Deg(d), y: Deg(0.0), z: Deg(-d) };
+        let want = refm(d.to_radians(), 0.0, (-d).to_radians());
+        let dd = m3maxdiff(M3::from(e), want).max(m3maxdiff(M3::from(Q::from(e)), want));
+        ts.rec(dd <= 1e-12, || format!("Euler<Deg<f64>>({}, 0, {}): max|Matrix - reference| = {:e}", d, -d, dd));
+    }
+    ts.print();
 }
 
 // ------------------------------------------------------------------------------------ C09
@@ -349,6 +422,43 @@ pub fn c09(n: u64, seed: u64) {
     for x in &t {
         x.print();
     }
+    // camera-like inputs: directions along or almost along a coordinate axis with `up` along another axis (either sign): the
+    // rotation is then a quarter / half turn or next to one, where the matrix -> quaternion conversion of the Quaternion path
+    // switches branches; also very short direction / up vectors (only the directions matter)
+    let tc = Tally::new("c09.camera_like_inputs");
+    let axes = [V3::unit_x(), -V3::unit_x(), V3::unit_y(), -V3::unit_y(), V3::unit_z(), -V3::unit_z()];
+    let offs = [V3::zero(), V3::new(2.0e-7, 0.0, 0.0), V3::new(0.0, -3.0e-5, 1.0e-6), V3::new(1.0e-3, 2.0e-3, -1.0e-3), V3::new(0.0, 0.0, 4.0e-9)];
+    for (i, ax) in axes.iter().enumerate() {
+        for (j, upa) in axes.iter().enumerate() {
+            if i / 2 == j / 2 { continue; }
+            for o in offs.iter() {
+                for &len in [1.0f64, 1.0e-9, 3.0e-5, 250.0].iter() {
+                    let d = (*ax + *o) * len;
+                    let up = *upa * if len < 1.0 { 2.0e-9 } else { 1.0 };
+                    let m3l = M3::look_to_lh(d, up);
+                    let ql: Q = Rotation::look_at(d, up);
+                    let bl: Basis3<f64> = Rotation::look_at(d, up);
+                    let eye = Point3::new(1.0, -2.0, 3.0);
+                    let m4 = M4::look_to_lh(eye, d, up);
+                    let dq: Decomposed<V3, Q> = Transform::look_at_lh(eye, eye + d, up);
+                    let tolq = 1e-9;
+                    let ok = is_rotation(m3l) && (ql.magnitude() - 1.0).abs() <= tolq && m3maxdiff(M3::from(ql), m3l) <= tolq && m3maxdiff(M3::from(bl), m3l) <= 1e-12
+                        && m3maxdiff(upper3(m4), m3l) <= 1e-12
+                        && (len < 1.0e-6 || m3maxdiff(M3::from(dq.rot), m3l) <= 1e-6)
+                        && (m3l * d.normalize() - V3::unit_z()).magnitude() <= 1e-9;
+                    tc.rec(ok, || format!("look_at(dir = {:?}, up = {:?}): Matrix3::look_to_lh = {:?}, Quaternion::look_at = {:?} (|q| = {:e}, max|Matrix3::from(q) - look_to_lh| = {:e}), M dir = {:?}",
+                        d, up, m3l, ql, ql.magnitude(), m3maxdiff(M3::from(ql), m3l), m3l * d.normalize()));
+                    // 2-D with short vectors
+                    let d2 = V2::new(d.x + d.z, d.y + 0.5 * d.z);
+                    if d2.magnitude2() > 0.0 {
+                        let m2 = Matrix2::look_at(d2, V2::new(-d2.y, d2.x));
+                        tc.rec(v2close(m2.x, d2 / d2.magnitude()) && close(m2.y.magnitude(), 1.0), || format!("Matrix2::look_at(dir = {:?}): first column {:?}, want {:?}", d2, m2.x, d2 / d2.magnitude()));
+                    }
+                }
+            }
+        }
+    }
+    tc.print();
 }
 
 // ------------------------------------------------------------------------------------ C14
@@ -479,6 +589,19 @@ pub fn c15(n: u64, seed: u64) {
     for x in &t {
         x.print();
     }
+    // 2-D: exactly opposite, axis-aligned and not (the signed angle is +-pi there), and quarter turns of either sense
+    let t2 = Tally::new("c15.between_vectors_2d_special");
+    for (a2, b2) in [((0.0f64, 1.0f64), (0.0f64, -1.0f64)), ((-1.0, 0.0), (1.0, 0.0)), ((1.0, 0.0), (-1.0, 0.0)), ((0.0, -1.0), (0.0, 1.0)),
+                     ((0.6, 0.8), (-0.6, -0.8)), ((-0.8, 0.6), (0.8, -0.6)), ((1.0, 0.0), (0.0, 1.0)), ((1.0, 0.0), (0.0, -1.0)), ((0.0, 1.0), (1.0, 0.0)), ((0.0, -1.0), (-1.0, 0.0))].iter() {
+        let (a, b) = (V2::new(a2.0, a2.1), V2::new(b2.0, b2.1));
+        let r: Basis2<f64> = Rotation::between_vectors(a, b);
+        let r32: Basis2<f32> = Rotation::between_vectors(Vector2::new(a2.0 as f32, a2.1 as f32), Vector2::new(b2.0 as f32, b2.1 as f32));
+        let i32_ = r32.rotate_vector(Vector2::new(a2.0 as f32, a2.1 as f32));
+        let ok = v2close(r.rotate_vector(a), b) && close(Matrix2::from(r).determinant(), 1.0)
+            && (i32_.x as f64 - b.x).abs() <= 1e-6 && (i32_.y as f64 - b.y).abs() <= 1e-6;
+        t2.rec(ok, || format!("Basis2::between_vectors(a = {:?}, b = {:?}): r(a) = {:?} (f32: {:?})", a, b, r.rotate_vector(a), i32_));
+    }
+    t2.print();
     // exactly opposite src/dst along every coordinate axis (both directions) and in every coordinate plane, several lengths,
     // no fallback: a unit quaternion, half turn about an axis perpendicular to src, taking src/|src| onto dst/|dst|
     let tx = Tally::new("c15.from_arc_opposite_axis_aligned");
